@@ -167,9 +167,53 @@ def check_polygon_helpers_exact(ctx, prog, rule="c03.exact"):
         ctx.ok(rule, rule + "|Polygon", "none of the %d Polygon helper bodies rounds an angle or a length" % n, None)
 
 
+def check_area_unsigned(ctx, prog, rule="c03.area"):
+    """"every area equals the source polygon's area": the shoelace sum is signed (negative for an outline listed clockwise), so what an `area` of a polygon
+    returns has to pass through a sign fix.  Decided structurally: the value returned is (a constant multiple of) `abs(..)` -> held; it is the bare sum, or
+    a helper's bare sum, with no abs / comparison / negation anywhere between the sum and the return -> violation; any other sign fix -> cannot decide."""
+    from ..cfgq import Scope as _Scope
+    from ..mir import callee_name as _cn
+    cands = [g for g in prog.fns.values() if g.root == g.id and not g.raw.get("impl_derived") and
+             ((g.crate == "bemodel" and g.path.endswith("types::geometry::HasSurface>::area") and "OPoint" in g.path and "Vec<" in g.path) or
+              (g.crate == "hulc" and "bdl::envelope::geom::Polygon" in g.path and g.path.endswith("::area")))]
+    ctx.floor(rule, "polygon area functions", len(cands), 2)
+    for f in cands:
+        label = "%s|%s" % (f.crate, "Polygon::area")
+        key = "%s|unsigned|%s" % (rule, label)
+        # everything the function can call inside the workspace, one level of private helpers deep
+        bodies = [f] + prog.closures_of(f)
+        for g in list(bodies):
+            for b, t in g.body.calls():
+                ids = prog.callee_index().get(_cn(t) or "", ())
+                for i in ids:
+                    h = prog.fns.get(i)
+                    if h is not None and h.crate == f.crate and h not in bodies and len(bodies) < 12:
+                        bodies += [h] + prog.closures_of(h)
+        names = set()
+        branches = False
+        for g in bodies:
+            for b, t in g.body.calls():
+                names.add(short_callee(_cn(t) or ""))
+            for b, i, st in g.body.statements():
+                if st["s"] == "assign" and st["rv"]["r"] == "un" and st["rv"].get("op") == "Neg":
+                    names.add("neg")
+                if st["s"] == "assign" and st["rv"]["r"] == "bin" and st["rv"].get("op") in ("Lt", "Le", "Gt", "Ge"):
+                    v = strip(_Scope(prog, g).rvalue(st["rv"]))
+                    if any(strip(x)[0] == "k" and "." in str(strip(x)[1]) for x in v[2:4]):
+                        branches = True     # a float compared with a float constant: may be a hand-written sign test
+        if "abs" in names:
+            ctx.ok(rule, key, "the shoelace sum goes through abs() before it is returned", f.loc())
+        elif "sum" in names and not ({"neg", "max", "min", "copysign", "signum", "hypot", "sqrt", "norm", "powi"} & names) and not branches:
+            ctx.violation(rule, key, "Polygon::area returns the signed shoelace sum (no abs, no sign test, no negation on the way): an outline listed clockwise "
+                          "gets a negative area, and with it every area, volume and area-weighted indicator built on it", f.loc())
+        else:
+            raise AnalysisError("%s: how the sign of the shoelace sum is removed was not recognised" % label)
+
+
 def run(ctx):
     prog = ctx.prog
     check_storey_data(ctx, prog)
+    check_area_unsigned(ctx, prog)
     # the tilt an element gets when the file gives none decides which way its polygon is turned (shared with C18)
     from .c18 import check_default_tilt
     check_default_tilt(ctx, prog, rule="c03.default")
